@@ -923,8 +923,33 @@ fn round_blocking(rt: &tokio::runtime::Runtime, seed: u64, hb: &Heartbeat, tot: 
             }
         })
     };
+    // 6b. a plain thread that is itself running a foreign executor (futures::executor) makes the same blocking calls from
+    // inside a future driven by it: still a plain thread as far as rsactor and tokio are concerned
+    let foreign = {
+        let (a, sh2) = (a.clone(), sh.clone());
+        let mut cr = Rng::new(seed ^ 77);
+        std::thread::spawn(move || {
+            futures::executor::block_on(async {
+                for _ in 0..5 {
+                    let kind = match cr.below(6) {
+                        0 => BKind::Tell,
+                        1 => BKind::Ask,
+                        2 => BKind::DepTell(1),
+                        3 => BKind::ErasedTell(None),
+                        4 => BKind::AskTo(LONG),
+                        _ => BKind::ErasedAsk(None),
+                    };
+                    send_blocking(&sh2, Ctx::Client(24), 0, &a, kind, msg_body(&mut cr, false));
+                }
+            })
+        })
+    };
     for t in ths {
         t.join().unwrap();
+    }
+    *o.entry("C17.same_rules").or_default() += 1;
+    if foreign.join().is_err() {
+        v.push(("C17.same_rules".into(), format!("[foreign-executor] blocking calls made by a plain thread from inside futures::executor::block_on panicked: {:?}", PANICS.lock().unwrap().last())));
     }
     let _ = rt.block_on(async_sender);
     // 7. stop, then blocking calls on the dead actor fail promptly with Send (also with a timeout)
@@ -2209,6 +2234,118 @@ fn round_dropsend(seed: u64, hb: &Heartbeat, tot: &Mutex<Tot>, prop: &str) {
 }
 
 // ---------------------------------------------------------------------------------------------
+// lastslot: several senders on different worker threads go for the last free slot(s) of a mailbox at the same instant with
+// tell_with_timeout, while the actor is parked in a handler for longer than the timeout. Exactly as many as there are free
+// slots succeed at once; the others WAIT (C09) and come back with Timeout at their deadline - not earlier, not with another
+// error, not with an Ok obtained after the deadline (C10).
+// ---------------------------------------------------------------------------------------------
+fn round_lastslot(seed: u64, hb: &Heartbeat, tot: &Mutex<Tot>, prop: &str) {
+    use ab::*;
+    use rsactor::TellHandler;
+    let mut r = Rng::new(seed);
+    let rt = tokio::runtime::Builder::new_multi_thread().worker_threads(8).enable_time().build().unwrap();
+    let cap = *r.pick(&[1usize, 2, 5]);
+    let free = 1 + r.below((cap as u64).min(2)) as usize;
+    let racers = free + 3 + r.below(3) as usize;
+    let to_ms = 40u64;
+    let hold_ms = 160u64;
+    let bucket0 = hb.now_bucket();
+    let handled = Arc::new(AtomicU64::new(0));
+    let results: Vec<(Result<(), String>, Duration, bool)> = rt.block_on(async {
+        let (a, jh) = rsactor::spawn_with_mailbox_capacity::<A>(Args { handled: handled.clone(), start_ms: 0, ticks: false }, cap);
+        // park the actor, then fill the mailbox up to `free` free slots
+        let a0 = a.clone();
+        let parked = tokio::spawn(async move { a0.ask(Work(0, hold_ms)).await });
+        while handled.load(Ordering::SeqCst) == 0 {
+            tokio::task::yield_now().await;
+        }
+        for i in 0..(cap - free) {
+            let _ = a.tell(Work(100 + i as u64, 0)).await;
+        }
+        let go = Arc::new(AtomicBool::new(false));
+        let ready = Arc::new(AtomicU64::new(0));
+        let mut hs = vec![];
+        for k in 0..racers {
+            let (a2, go, ready) = (a.clone(), go.clone(), ready.clone());
+            let erased = k % 3 == 2;
+            hs.push(tokio::spawn(async move {
+                let th: Box<dyn TellHandler<Work>> = Box::new(a2.clone());
+                ready.fetch_add(1, Ordering::SeqCst);
+                while !go.load(Ordering::Acquire) {
+                    std::hint::spin_loop();
+                }
+                let t = Instant::now();
+                let res = if erased { th.tell_with_timeout(Work(200 + k as u64, 0), Duration::from_millis(to_ms)).await } else { a2.tell_with_timeout(Work(200 + k as u64, 0), Duration::from_millis(to_ms)).await };
+                let el = t.elapsed();
+                let timeout = matches!(res, Err(rsactor::Error::Timeout { .. }));
+                (res.map_err(|e| format!("{e:?}")), el, timeout)
+            }));
+        }
+        let t0 = Instant::now();
+        while (ready.load(Ordering::SeqCst) as usize) < racers.min(7) && t0.elapsed() < Duration::from_secs(5) {
+            std::thread::yield_now();
+            tokio::task::yield_now().await;
+        }
+        go.store(true, Ordering::Release);
+        let mut out = vec![];
+        for h in hs {
+            match tokio::time::timeout(Duration::from_secs(10), h).await {
+                Ok(Ok(x)) => out.push(x),
+                Ok(Err(_)) => out.push((Err("the racing task panicked".to_string()), Duration::ZERO, false)),
+                Err(_) => out.push((Err("still pending 10 s after it was issued".to_string()), Duration::from_secs(10), false)),
+            }
+        }
+        let _ = parked.await;
+        let _ = a.kill();
+        let _ = tokio::time::timeout(Duration::from_secs(5), jh).await;
+        out
+    });
+    rt.shutdown_timeout(Duration::from_secs(2));
+    let stalled = hb.max_late_since(bucket0) > 100_000;
+    let mut t = tot.lock().unwrap();
+    t.rounds += 1;
+    t.hashes.insert(mix(cap as u64 * 16 + free as u64, racers as u64));
+    *t.nontrivial.entry("C09".into()).or_default() += 1;
+    *t.nontrivial.entry("C10".into()).or_default() += 1;
+    if stalled {
+        t.inconclusive.push(format!("lastslot round {seed}: machine stalled"));
+        return;
+    }
+    *t.obl.entry("C09.waits").or_default() += racers as u64;
+    *t.obl.entry("C10.returns").or_default() += racers as u64;
+    let what = format!("{racers} senders called tell_with_timeout({to_ms} ms) at the same instant for the last {free} free slot(s) of a capacity-{cap} mailbox whose actor was parked in a handler for {hold_ms} ms");
+    let mut v: Vec<(&str, String)> = vec![];
+    let oks = results.iter().filter(|x| x.0.is_ok()).count();
+    for (res, el, timeout) in &results {
+        match res {
+            Ok(()) => {
+                if *el > Duration::from_millis(to_ms + 40) {
+                    v.push(("C10.late", format!("[lastslot] {what}: one of them returned Ok only after {el:?} - it was not waiting under its timeout")));
+                }
+            }
+            Err(_) if *timeout => {
+                if *el < Duration::from_millis(to_ms) {
+                    v.push(("C10.early", format!("[lastslot] {what}: Timeout after only {el:?}")));
+                }
+                if *el > Duration::from_millis(to_ms + 60) {
+                    v.push(("C10.late", format!("[lastslot] {what}: Timeout reported only after {el:?}")));
+                }
+            }
+            Err(e) if e.contains("still pending") => v.push(("C10.late", format!("[lastslot] {what}: one call was {e}"))),
+            Err(e) => v.push(("C09.waits", format!("[lastslot] {what}: one of them failed with {e} although the actor was alive - a send into a full mailbox waits, it does not fail"))),
+        }
+    }
+    if oks != free && v.is_empty() {
+        v.push(("C09.waits", format!("[lastslot] {what}: {oks} of them returned Ok")));
+    }
+    for (c, m) in v {
+        if prop == "all" || c.starts_with(prop) {
+            t.viol.push((c.into(), m, seed, "lastslot".into()));
+        }
+    }
+}
+
+// ---------------------------------------------------------------------------------------------
 // abort: the actor's JoinHandle is resolved by `JoinHandle::abort()` while strong references exist.
 // Whatever made the handle resolve, "is_alive() is false once its JoinHandle has resolved, after which
 // every send fails" (C11) and "every ask still pending on it and every later ask returns an Err" (C03).
@@ -3041,6 +3178,16 @@ pub fn cmd_mt(a: &Args) -> i32 {
                     }
                 }
             }
+            "lastslot" => {
+                let mut n = 0u64;
+                while tp.elapsed() < per_profile {
+                    n += 1;
+                    round_lastslot(mix(base, ((pi as u64) << 56) ^ n), &hb, &tot, &prop);
+                    if tot.lock().unwrap().viol.len() > 3 {
+                        break;
+                    }
+                }
+            }
             "abort" => {
                 let mut n = 0u64;
                 while tp.elapsed() < per_profile {
@@ -3107,7 +3254,7 @@ pub fn cmd_mt(a: &Args) -> i32 {
     #[cfg(feature = "f_testutils")]
     {
         let d = rsactor::dead_letter_count() - dl0;
-        if !tainted.load(Ordering::Relaxed) && profiles.iter().all(|p| p != "spawnstorm" && p != "tightrace" && p != "starve" && p != "mutualask" && p != "abort" && p != "reentrant" && p != "dropspin" && p != "metricsrace" && p != "undriven" && p != "dlrace" && p != "dropsend") {
+        if !tainted.load(Ordering::Relaxed) && profiles.iter().all(|p| p != "spawnstorm" && p != "tightrace" && p != "starve" && p != "mutualask" && p != "abort" && p != "reentrant" && p != "dropspin" && p != "metricsrace" && p != "undriven" && p != "dlrace" && p != "dropsend" && p != "lastslot") {
             *t.obl.entry("C13.counter").or_default() += 1;
             t.extra.insert("dead_letter_count_delta".into(), d);
             let fl = t.failures;
